@@ -88,6 +88,26 @@ def finding_matches(f, prop, harness, desc, func):
     return True
 
 
+def _watchdog(stop, limit_kb, ov):
+    """Kill any cbmc process of this run whose resident set exceeds the limit (`ulimit -v` cannot be used: it
+    also applies to the Kani driver, which aborts when it cannot allocate).  A killed harness shows up as
+    'no checks reported' = inconclusive."""
+    import threading
+    while not stop.wait(5):
+        try:
+            out = subprocess.run(["ps", "-eo", "pid,rss,args"], capture_output=True, text=True).stdout
+        except Exception:
+            continue
+        for line in out.splitlines():
+            parts = line.split(None, 2)
+            if len(parts) == 3 and parts[2].startswith("cbmc ") and ov in parts[2]:
+                try:
+                    if int(parts[1]) > limit_kb:
+                        os.kill(int(parts[0]), signal.SIGKILL)
+                except Exception:
+                    pass
+
+
 def run_kani(ov, filters, jobs, harness_timeout, total_timeout, extra, json_out, log_path, mem_gb=None):
     cmd = ["cargo", "kani"]
     for f in filters:
@@ -95,16 +115,19 @@ def run_kani(ov, filters, jobs, harness_timeout, total_timeout, extra, json_out,
     cmd += ["-j", str(jobs), "--output-format", "terse", "-Z", "unstable-options",
             "--export-json", json_out, "--harness-timeout", f"{harness_timeout}s"]
     cmd += extra
-    pre = ""
-    if mem_gb:
-        pre = f"ulimit -v {int(mem_gb * 1024 * 1024)}; "
-    sh = pre + " ".join("'" + c + "'" for c in cmd)
+    sh = " ".join("'" + c + "'" for c in cmd)
     t0 = time.time()
+    import threading
+    stop = threading.Event()
+    wd = threading.Thread(target=_watchdog, args=(stop, int((mem_gb or 20) * 1024 * 1024), ov), daemon=True)
+    wd.start()
     with open(log_path, "w") as lf:
         try:
             rc, _ = run_group(["bash", "-c", sh], ov, ENV, total_timeout, capture=False, stdout=lf)
         except subprocess.TimeoutExpired:
             rc = -9
+        finally:
+            stop.set()
     return rc, time.time() - t0
 
 
